@@ -152,9 +152,12 @@ def receiver_table_cases(opts=None):
         if recv.startswith("super"):
             continue
         r = "(" + recv + ")" if recv[0].isdigit() else recv
-        for mi, meth in enumerate(["concat", "replace", "padStart", "trim", "substring"]):
+        # the six methods the property documents for string-literal receivers (all configured here), and two that are not
+        cfg = vlib.default_config()
+        cfg["csiMethods"] = cfg["csiMethods"] + [{"src": "replaceAll"}, {"src": "padStart"}, {"src": "padEnd", "dst": "stringPadEnd"}, {"src": "repeat"}]
+        for mi, meth in enumerate(["concat", "replace", "replaceAll", "padStart", "padEnd", "repeat", "trim", "substring"]):
             code = "function f(a,b,o,k,r,q,x,y,z,i,arr){ return %s.%s(%s); }" % (r, meth, args[(ri + mi) % len(args)])
-            out.append({"id": "recv-%d-%s" % (ri, meth), "config": vlib.default_config(), "calls": [{"code": code, "file": "recv.js"}], "opts": dict(opts or {})})
+            out.append({"id": "recv-%d-%s" % (ri, meth), "config": cfg, "calls": [{"code": code, "file": "recv.js"}], "opts": dict(opts or {})})
     return out
 
 
